@@ -602,3 +602,15 @@ for _u in _c11["UNITS"]:
         _u.template = "../C11/" + _u.template
         UNITS.append(_u)
 META["trusted_base"] = list(META.get("trusted_base", [])) + ["units c11.tss.* are the C11 units of the same name (specs/C11/tss.c)"]
+
+
+# ---- C16 unit reused: the process mask the decoders test PUs against is parsed from the resolved "0x..." string (cpu_mask.hpp)
+_c16 = {"UNITS": [], "VX_NO_REUSE": True}
+if not globals().get("VX_NO_REUSE"):
+    exec(compile(open("/verif/specs/C16/spec.py").read(), "/verif/specs/C16/spec.py", "exec"), _c16)
+for _u in _c16["UNITS"]:
+    if _u.name == "mask.from_string.to_mask":
+        _u.name = "c16." + _u.name
+        _u.template = "../C16/" + _u.template
+        UNITS.append(_u)
+META["trusted_base"] = list(META.get("trusted_base", [])) + ["unit c16.mask.from_string.to_mask is the C16 unit of the same name (specs/C16/hexmask.c)"]
